@@ -31,6 +31,8 @@ func coqOp0(o Op) string {
 		return fmt.Sprintf("Cancel %s %s", lib.ZU(o.ID), zi(o.Who))
 	case "IncreaseFee":
 		return fmt.Sprintf("IncreaseFee %s %s %s %s %s", lib.ZU(o.ID), zi(o.Who), lib.Z(o.Add), zi(o.Token), zi(o.Which))
+	case "IncreaseFeeP":
+		return fmt.Sprintf("IncreaseFeeP %s %s %s %s", lib.ZU(o.ID), zi(o.Who), lib.Z(o.Add), zi(o.Token))
 	case "RequestBatch":
 		return fmt.Sprintf("RequestBatch %s %s %s %s %s %s", zi(o.Token), zi(o.Which), zi(o.FeeRcv), lib.Z(o.BaseFee), lib.Z(o.MinFee), lib.Bool(o.Auth))
 	case "BatchExecuted":
@@ -124,6 +126,8 @@ func coqCase(w *World, steps []string) string {
 			toks = append(toks, lib.Pair(zi(i), "KExt"))
 		case "coin":
 			toks = append(toks, lib.Pair(zi(i), "KCoin"))
+		case "erc":
+			toks = append(toks, lib.Pair(zi(i), "KErc"))
 		}
 	}
 	for _, k := range w.keys {
